@@ -176,6 +176,11 @@ class ThreadPool:
         self.started = True
         # Start some threads.
         self.adjustPoolsize()
+        # A submission made from another thread may be half-way through being
+        # coordinated: it saw the pre-start limit of zero workers but has not
+        # yet been recorded as backlogged.  Go through the coordinator once,
+        # which serialises with it, so the backlog read below includes it.
+        self._team.grow(0)
         backlog = self._team.statistics().backloggedWorkCount
         if backlog:
             self._team.grow(backlog)
